@@ -27,7 +27,7 @@ SCENARIO_TIMEOUT = 180
 PROBES = ["tie_mode", "score_exactly_zero", "quantised_scores", "best_ranked_rows_are_decoys", "another_collection_analysed_before_in_process", "dedup_off", "rollup_off", "decoys_off", "multi_collection", "no_prefix_multi", "empty_string_prefix", "lower_is_better_scores", "failed_attempt_with_same_arguments_first", "checksum_colliding_peptides", "rollup_input_without_decoy_files",
           "level_cols", "parquet", "spill_files>=2", "group_cut_by_chunk", "merge_chunk_small", "workers>1",
           "switches>0", "listing_permuted", "rollup_tool", "rollup_tool_multi_root", "degenerate_level",
-          "conf_chunk_1", "level_batch_flush"]
+          "conf_chunk_1", "level_batch_flush", "sibling_level_of_equal_cardinality"]
 RULE = (
     "Seeded tables with controlled multiplicities (1-4 PSMs per spectrum, peptides shared between spectra, optional "
     "ModifiedPeptide/Precursor/PeptideGroup columns, 1-3 collections with or without prefixes) and a supplied score "
@@ -113,6 +113,13 @@ def make_scenario(seed):
     if rng.random() < 0.3:
         for t in scn["tables"]:
             t["hash_twins"] = rng.choice([1, 2, 4])  # distinct peptides whose 32-bit checksums collide
+    r_sib = random.Random(f"sibling|{seed}")
+    if r_sib.random() < 0.2:
+        # the only extra level is a sibling of the peptide level: as many groups as peptides, a few memberships swapped, so
+        # that two consecutive levels keep the same NUMBER of rows but not the same rows
+        for t in scn["tables"]:
+            t["level_cols"] = ["PeptideGroup"]
+            t["sibling_groups"] = True
     if not rollup_tool:
         scn["lower_is_better"] = rng.random() < 0.25
         scn["failed_attempt_first"] = rng.random() < 0.25
@@ -351,6 +358,7 @@ def run_scenario(scn, workdir):
         "empty_string_prefix": int(any(pf == "" for pf in (conf.get("prefixes") or []))),
         "lower_is_better_scores": int(lower),
         "checksum_colliding_peptides": int(any(t.get("hash_twins") for t in scn["tables"])),
+        "sibling_level_of_equal_cardinality": int(any(t.get("sibling_groups") for t in scn["tables"])),
         "failed_attempt_with_same_arguments_first": int(bool(res.first_attempt and res.first_attempt.startswith("failed"))),
         "level_cols": int(bool(level_cols)),
         "parquet": int(scn["format"] == "parquet"),
